@@ -216,7 +216,7 @@ func c13RetKinds(r *Run, w *c13WaitSite, ret *ssa.Return, reach *Reach) []c13Kin
 }
 
 func c13Observe(r *Run, w *c13WaitSite, fn *ssa.Function, header *ssa.BasicBlock, reach *Reach, sets, waits []ssa.Instruction) c13Outcome {
-	o := c13Outcome{sets: reachableIns(sets, reach), waits: reachableIns(waits, reach), loops: BackEdgeTaken(reach, header)}
+	o := c13Outcome{sets: reachableIns(sets, reach), waits: reachableIns(waits, reach), loops: ReachedAgain(reach, header)}
 	seen := map[string]bool{}
 	for _, ret := range reachableReturns(fn, reach) {
 		for _, k := range c13RetKinds(r, w, ret, reach) {
@@ -258,8 +258,17 @@ func c13Loop(r *Run, fn *ssa.Function) {
 	if post == nil {
 		return
 	}
+	// header: the block of the attempt, where the walks of one iteration start.  They describe an
+	// iteration only if every iteration opens with the attempt: each entry into the loop — the
+	// first and every later one — reaches the attempt, and nothing the mechanism could observe (a
+	// wait, an exit, a write to state that is read for more than reporting) happens on the way.
 	header := post.Block()
-	if !r.Check("retry:loop", IsLoopHeader(header), r.Where(post), "the PostAndParse attempt sits at the head of the retry loop") {
+	atHead, whyNot := r.HeadOfIteration(post)
+	detail := "the PostAndParse attempt sits at the head of the retry loop (every iteration opens with it: only effect-free statements may precede it)"
+	if !atHead {
+		detail += ": " + whyNot
+	}
+	if !r.Check("retry:loop", atHead, r.Where(post), detail) {
 		return
 	}
 	for i := 0; i < 5; i++ {
@@ -1042,7 +1051,9 @@ func c13WaitRule(r *Run, w *c13WaitSite) {
 	if okNext {
 		okNext = false
 		for _, p := range header.Preds {
-			okNext = okNext || header.Dominates(p) && fired.Blocks[p]
+			// the walk starts at the select, which the attempt dominates (retry:loop): a
+			// predecessor of the attempt that it reaches lies on the way round the loop
+			okNext = okNext || fired.Blocks[p] && header.Dominates(sel.Block())
 		}
 	}
 	r.Check("wait:timer-fired", okNext, r.Where(sel), "the timer case goes on to the next attempt without returning")
